@@ -64,3 +64,155 @@ def driver(name, flavor="asan", extra=()):
         run(cxx + flags + ["-w", "-I" + str(HARNESS)] + list(extra) + [str(s) for s in srcs] + [str(lib), "-lpthread", "-o", str(tmp)], env=env)
         tmp.rename(exe)
     return exe
+
+
+# ------------------------------------------------------------------------------ Lean judge
+JUDGE_ROOT = "OVM.IO.Driver"
+
+
+def _module_path(mod):
+    return LEAN / (mod.replace(".", "/") + ".lean")
+
+
+def _import_closure(root):
+    seen, todo = [], [root]
+    while todo:
+        m = todo.pop()
+        if m in seen:
+            continue
+        p = _module_path(m)
+        if not p.exists():
+            continue            # core / Std module
+        seen.append(m)
+        for line in p.read_text().splitlines():
+            mm = re.match(r"\s*import\s+(\S+)", line)
+            if mm:
+                todo.append(mm.group(1))
+    return seen
+
+
+def judge_closure():
+    return _import_closure(JUDGE_ROOT)
+
+
+def judge_exe():
+    """Compiled OVMB judge.  Uses the lake target `ovmbjudge` when the lakefile defines it; otherwise compiles the C
+    files lake emits for the import closure of OVM.IO.Driver with leanc (no change to the lakefile needed)."""
+    lakefile = (LEAN / "lakefile.toml").read_text()
+    if re.search(r'name\s*=\s*"ovmbjudge"', lakefile):
+        ok, lg = build.lake_build(["ovmbjudge"])
+        if not ok:
+            raise RuntimeError("lake build ovmbjudge failed:\n" + lg[-3000:])
+        return LEAN / ".lake" / "build" / "bin" / "ovmbjudge"
+    ok, lg = build.lake_build([JUDGE_ROOT])
+    if not ok:
+        raise RuntimeError("lake build %s failed:\n%s" % (JUDGE_ROOT, lg[-3000:]))
+    mods = judge_closure()
+    ir = LEAN / ".lake" / "build" / "ir"
+    cfiles = [ir / (m.replace(".", "/") + ".c") for m in mods]
+    key = sha(*[c.read_bytes() for c in cfiles])
+    out = IOB / "judge" / ("ovmbjudge-" + key)
+    with flock("io-judge"):
+        if out.exists():
+            return out
+        out.parent.mkdir(parents=True, exist_ok=True)
+        for old in out.parent.glob("ovmbjudge-*"):
+            try:
+                if old.is_file() and time.time() - old.stat().st_mtime > 3600:
+                    old.unlink()
+            except OSError:
+                pass
+        objdir = IOB / "judge" / "obj"
+        objdir.mkdir(parents=True, exist_ok=True)
+        log("[build] compiling OVMB judge (%d modules, leanc)" % len(cfiles))
+
+        def cc(c):
+            o = objdir / (sha(c.read_bytes()) + ".o")
+            if not o.exists():
+                tmp = o.with_suffix(".tmp%d.o" % os.getpid())
+                run(["leanc", "-c", "-O2", "-DNDEBUG", str(c), "-o", str(tmp)], cwd=LEAN)
+                tmp.rename(o)
+            return o
+        with ThreadPoolExecutor(NPROC) as ex:
+            objs = list(ex.map(cc, cfiles))
+        tmp = out.with_suffix(".tmp%d" % os.getpid())
+        run(["leanc", "-o", str(tmp)] + [str(o) for o in objs], cwd=LEAN)
+        tmp.rename(out)
+    return out
+
+
+# ------------------------------------------------------------------------------ sharded runs
+DRV_ENV = {"ASAN_OPTIONS": "detect_leaks=0:allocator_may_return_null=1:max_allocation_size_mb=256:abort_on_error=1:handle_abort=1",
+           "UBSAN_OPTIONS": "halt_on_error=1:abort_on_error=1:print_stacktrace=0"}
+
+
+def workdir(ctx, name):
+    d = IOB / ("%s-%s-%d" % (name, ctx.tier, ctx.seed))
+    d.mkdir(parents=True, exist_ok=True)
+    return d
+
+
+def run_shards(exe, argv_of_shard, nshards, out_of_shard, seed, timeout=3600, extra_env=None):
+    """Run `exe argv_of_shard(i)` for i in range(nshards) in parallel; stdout of shard i -> out_of_shard(i)."""
+    env = dict(os.environ)
+    env.update(DRV_ENV)
+    env["VERIF_SEED"] = str(seed)
+    if extra_env:
+        env.update(extra_env)
+
+    def one(i):
+        out = out_of_shard(i)
+        env_i = dict(env)
+        env_i["IO_ERRFILE"] = str(Path(out).with_suffix(".err"))
+        with open(out, "w") as f:
+            p = subprocess.run([str(exe)] + [str(a) for a in argv_of_shard(i)], stdout=f, stderr=subprocess.PIPE,
+                               env=env_i, timeout=timeout, text=True, errors="replace")
+        if p.returncode != 0:
+            raise RuntimeError("%s shard %d exited %d: %s" % (Path(exe).name, i, p.returncode, p.stderr[-2000:]))
+        return out
+    with ThreadPoolExecutor(min(nshards, NPROC)) as ex:
+        return list(ex.map(one, range(nshards)))
+
+
+def run_judge(judge, args, timeout=7200):
+    p = subprocess.run([str(judge)] + [str(a) for a in args], stdout=subprocess.PIPE, stderr=subprocess.PIPE, text=True,
+                       errors="replace", timeout=timeout)
+    if p.returncode != 0:
+        raise RuntimeError("judge %s failed (%d): %s" % (args[0], p.returncode, p.stderr[-2000:]))
+    return parse_judge(p.stdout)
+
+
+def parse_judge(txt):
+    fails, stats, samples = [], {}, []
+    for l in txt.splitlines():
+        if l.startswith("FAIL "):
+            head, _, hexpart = l.partition(" | hex=")
+            t = head.split(" ", 3)
+            what_detail = t[3] if len(t) > 3 else ""
+            what, _, detail = what_detail.partition(" | ")
+            fails.append({"id": t[1], "what": t[2] if len(t) > 2 else "?", "detail": (what + " " + detail).strip() if False else detail or what,
+                          "kind": t[2] if len(t) > 2 else "?", "hex": hexpart.strip()})
+        elif l.startswith("STAT "):
+            k, _, v = l[5:].rpartition(" ")
+            try:
+                stats[k] = stats.get(k, 0) + int(v)
+            except ValueError:
+                pass
+        elif l.startswith("SAMPLE "):
+            samples.append(l[7:])
+    return {"fails": fails, "stats": stats, "samples": samples}
+
+
+def merge_judge(results):
+    out = {"fails": [], "stats": {}, "samples": []}
+    for r in results:
+        out["fails"] += r["fails"]
+        out["samples"] += r["samples"]
+        for k, v in r["stats"].items():
+            out["stats"][k] = out["stats"].get(k, 0) + v
+    return out
+
+
+def judge_shards(judge, args_of_shard, nshards):
+    with ThreadPoolExecutor(min(nshards, NPROC)) as ex:
+        return merge_judge(list(ex.map(lambda i: run_judge(judge, args_of_shard(i)), range(nshards))))
